@@ -4,6 +4,7 @@ from plan import H, nlimbs, nbytes
 FMT = ("alloc::fmt::format", "stubs::format_stub")
 ALL = [0, 1, 7, 8, 16, 60, 64, 65, 72, 128]
 QUICK = [0, 8, 64, 65]
+RLP_OK = []   # rlp crate encoder: > 300 s at 8 bits in a probe and no result in the thorough validation run - not registered
 NUMERIC_OK = []   # NUMERIC round trip at 16 bits: unwinding of the digit loops not decided in 500 s - not registered
 
 
@@ -23,7 +24,7 @@ def harnesses():
 
         for crate in ("alloy_rlp", "fastrlp_03", "fastrlp_04"):
             add(crate, "c16::%s::<%d,%d,%d>" % (crate, b, l, no), [crate + "::Encodable::{encode,length}", crate + "::Decodable::decode"])
-        if b in (8, 16):
+        if b in RLP_OK:
             # RlpStream is heavy for CBMC (> 300 s at 8 bits): thorough tier, two widths
             add("rlp", "c16::rlp::<%d,%d,%d>" % (b, l, no), ["rlp::Encodable", "rlp::Decodable"], tier="thorough", timeout=3600)
         add("ssz_borsh", "c16::ssz_borsh::<%d,%d,%d>" % (b, l, nb),
